@@ -19,6 +19,7 @@ import z3
 from contracts import merge_contract as mc
 from contracts.C04 import _find_kernel_type, union_measure
 from hv import core, extract, framevc as fv, pyvc, scanvc
+from hv import history
 from hv.driver import Bounded, Spec
 from hv.pyvc import to_z3
 
@@ -251,7 +252,7 @@ SPEC = Spec(
     lean=['IntervalMeasure.lean', 'Folds.lean'],
     prop=PROP, level="proof",
     functions=[(UT, "merge_kernel_intervals"), (CA, "CommunicationAnalysis.get_comm_comp_overlap.get_comm_comp_overlap_value"), (CA, "CommunicationAnalysis.get_comm_comp_overlap")],
-    units=units, bounded=[Bounded("overlap_vs_measure", bounded)],
+    units=units, bounded=[Bounded("overlap_vs_measure", bounded), Bounded("history_independence", history.stage(PROP, "overlap", "gen"))],
     trusted=["Lean lemmas L1, L3, L4 (sweep lemma and integral of a step function) turn S1-S4 + M1 into the measure statement; the z3 part proves S1-S4 and M1-M3 from the code",
              "fold meta-lemma for ghost accumulators and sums (L5)",
              "get_kernel_type uninterpreted; sort_values(by='time') yields non-decreasing times (any order among equal times)"],
